@@ -868,19 +868,18 @@ def conformance_threads(ev, vd, tier, work, b, drv):
                 rot += 1
                 plan.append((im, [(kinds[rot % len(kinds)], rng.choice(sorted(cls["last"]))), (kinds[(rot // 2) % len(kinds)], rng.choice(sorted(cls["first"])))],
                              yields[rot % len(yields)]))
-        else:
+        elif im[4] <= 16 or im[4] % 4 == 0:
             for c in sorted(cls):
-                for dg in sorted(cls[c]):
-                    for k in kinds:
-                        rot += 1
-                        plan.append((im, [(k, dg)], yields[rot % len(yields)]))
+                for k in sorted(set(kinds)):
+                    rot += 1
+                    plan.append((im, [(k, sorted(cls[c])[rot % len(cls[c])])], yields[rot % len(yields)]))
             if "first" in cls and "last" in cls:
-                for k in kinds:
+                for k in sorted(set(kinds)):
                     rot += 1
                     plan.append((im, [(k, max(cls["last"])), (kinds[rot % len(kinds)], min(cls["first"]))], yields[rot % len(yields)]))
     ndam = 0
     for im, damage, y in plan:
-        tb = run_bmload(vd, drv, env, work, im[5], y, reps, im[0], im[4], damage=damage)
+        tb = run_bmload(vd, drv, env, work, im[5], y, 1, im[0], im[4], damage=damage)
         if tb is None:
             continue
         ndam += 1
